@@ -493,7 +493,7 @@ def main(ctx, args):
         "Model/RustGen.lean ports the control-flow emission of rustgen.rs and the template's StateStorage by hand; tie = tools/extract.py (constants, code shapes) + the two correspondences (dispatch loop parsed back from the emitted text; template StateStorage compiled as it stands)",
         "usize saturation of the state cursor at 2^64 is not modelled (Nat)",
         "host of the generated program: now = sample index, sample rate 48000 (as the harness runner gives the VM); NaN matches NaN",
-        "generated programs come from tools/gen/coregen.py profiles scalar/core, steered away from the known defects of the pinned tree (F2, F3, F20, G3 …), so that the VM is a usable reference",
+        "generated programs come from tools/gen/coregen.py profiles scalar/core, steered away from the known defects of the pinned tree (F20, G3 …; F2 and F3 are repaired and generated), so that the VM is a usable reference",
     ]
     known = load_known("C18")
     os.makedirs(WORK, exist_ok=True)
